@@ -809,11 +809,12 @@ class CompositeEnvelope:
                 ce, CompositeEnvelope
             ), "ce should be CompositeEnvelope type"
             state_objs.extend(ce.state_objs)
-            merged_containers.append(CompositeEnvelope._containers[ce.uid])
+            container = CompositeEnvelope._containers[ce.uid]
             if ce_container is None:
-                ce_container = CompositeEnvelope._containers[ce.uid]
-            elif CompositeEnvelope._containers[ce.uid] is not ce_container:
-                ce_container.append_states(CompositeEnvelope._containers[ce.uid])
+                ce_container = container
+            elif not any(container is merged for merged in merged_containers):
+                ce_container.append_states(container)
+            merged_containers.append(container)
             ce.uid = self.uid
         if ce_container is None:
             ce_container = CompositeEnvelopeContainer(self.uid)
